@@ -166,14 +166,14 @@ def enumerate_inferred(tier: str):
 
 # --------------------------------------------------------------------------------------------- annotated alphabet
 
-ANN_LEAVES = [("int",), ("str",), ("None",), ("LC",), ("list", ("int",)), ("Optional", ("int",)), ("dict", ("str", ), ("int",)), ("Union", ("int",), ("str",)), ("Lit", "1"), ("Callable0", ("int",)), ("T",), ("Any",)]
+ANN_LEAVES = [("int",), ("str",), ("None",), ("LC",), ("NT",), ("NTS",), ("TPS",), ("list", ("int",)), ("Optional", ("int",)), ("dict", ("str", ), ("int",)), ("Union", ("int",), ("str",)), ("Lit", "1"), ("Callable0", ("int",)), ("T",), ("Any",)]
 
 
 def enumerate_annotated(tier: str):
     """Yield (kind, payload, label): return annotations crossed with result documentation (numpydoc)."""
     for t in ANN_LEAVES:
         yield [t], False, f"a:{tlabel(t)}"
-    elems = ANN_LEAVES[:6] if tier == "quick" else ANN_LEAVES[:10]
+    elems = ANN_LEAVES[:7] if tier == "quick" else ANN_LEAVES[:13]
     for n in (1, 2, 3):
         for combo in itertools.product(elems if n < 3 else elems[:4], repeat=n):
             yield list(combo), True, "a:tuple[" + ", ".join(tlabel(t) for t in combo) + "]"
